@@ -3,6 +3,7 @@ CONSTANTS D <- MCD
   Msgs <- MCMsgs
   Regs <- MCRegs
   MaxCalls = 2
+  MaxRegs = 1
   Locked = FALSE
 SPECIFICATION MCSpec
 INVARIANTS NoCrash
